@@ -21,6 +21,7 @@ DECIDES = (
     "transform method, transform() as resolved through the MRO routes that kind through the override (C09.TRANSFORM-EQUALS-METHODS); "
     "within one constructor a Face object is handed to at most one operation unless copied, faces of an already built operation count "
     "as owned (C09.LINEAR-PARTS); every copy() in the element hierarchy is a deep copy (C09.DEEP-COPY)."
+    ' functions.mirror_matrix equals I - 2 n n^T entry by entry in a polynomial domain (C09.MIRROR-MATRIX); a freshly created element is attached to one slot only (C09.NO-SHARED-PARTS); no function closing over self is kept in an instance that copy.deepcopy must duplicate (part of C09.DEEP-COPY).'
 )
 NOT_DECIDED = "numeric equality of the transformed entity with an independently transformed output."
 ASSUMPTIONS = [
